@@ -42,8 +42,16 @@ MANIFEST = {
             "source (declared fields, mutators, lazy initialisers, every lru_cache method with its transitive "
             "read-set, write-sets), the exact list of offending (cached method, mutable field) pairs (F6, F14) with the "
             "obligation proved for all other caches, derivations write no parent field, two-thread interleaving "
-            "confluence of the test/compute/store cache protocol (every schedule); plus random histories over shared "
-            "objects checked call-by-call against fresh objects and against the extracted memo model.",
+            "confluence of the test/compute/store cache protocol (every schedule); for a process as a state machine, "
+            "results a function of (immutable fields, arguments) => any two histories ending with the same call agree, "
+            "every position of every history gives the fresh-process value, one failing history refutes every such "
+            "function, snapshot criterion (hidden state unchanged up to cache fills), instantiated on the memo model and "
+            "on the generated table; plus random histories over shared objects checked call-by-call against fresh "
+            "objects and against the extracted memo model, and a reflectively generated catalogue (every coin, "
+            "configuration, address class, mnemonic family x language incl. shared-word mnemonics, wallets, codecs) run "
+            "as permutation / star / Euler-tour / threaded histories and first-use barrier schedules in worker "
+            "interpreters, every call against its fresh-interpreter value, process-state snapshots before/after, "
+            "failing histories delta-debugged and replayable.",
     "note": "The static read/write-set analysis (harness/gen_objects.py) is trusted (hypotheses reads_sound/gen_covers); "
             "real thread scheduling, the GIL and dict atomicity are outside the model -- the threaded replay is a test.",
     "technique": "Coq proof (induction over histories and schedules) + vm_compute obligations over the generated object "
@@ -62,7 +70,11 @@ RULE = ("A case is (history, position): the call at that position of a history o
 TRUSTED = ["harness/gen_objects.py static analysis of bip_utils (typed receivers, virtual dispatch over subclasses, "
            "by-name resolution for untyped receivers; conf narrowing checked against the coin tables in Coq)",
            "object graph used for the model prediction (which object owns the field a method reads) is written in "
-           "harness/props/C15.py; GetAddress of Electrum v2 / Byron legacy is taken not to depend on the private flag (C04)"]
+           "harness/props/C15.py; GetAddress of Electrum v2 / Byron legacy is taken not to depend on the private flag (C04)",
+           "harness/c15ops.py: canonical rendering of results and of the process-state snapshot (what is walked and what is "
+           "not is listed in input_distribution.snapshot_exclusions); quick tier: a child forked from an interpreter that has "
+           "only imported bip_utils is taken to be a fresh interpreter (every difference is confirmed in newly started "
+           "interpreters, which the thorough tier uses throughout)"]
 ASSUMPTIONS = ["reads_sound: a method's result depends only on the fields of its read-set",
                "gen_covers: the generated table lists every mutable field a memoised method reads"]
 BUDGET = {"quick": 150, "thorough": 1500}
@@ -961,22 +973,6 @@ def reflective(ctx):
     # (ii') schedule stream: first use under contention, each schedule in a newly started interpreter of its own
     races, nkeys = build_race_schedules(ctx, ops)
     ranswers = pool.run([{"rounds": r, "seed": sd} for r, sd in races], True)
-    race_calls, race_bad = 0, 0
-    for (rounds, sd), a in zip(races, ranswers):
-        if "rres" not in a:
-            _R["verdict"][_digest(rounds)] = "schedule worker failed: %s" % _short(a)
-            ctx.run("history_run", ["race", len(rounds), _digest(rounds)], "race")
-            continue
-        race_calls += sum(len(r) for r in rounds)
-        bad = c15hist.round_mismatches(orc, rounds, a["rres"])
-        if bad:
-            race_bad += 1
-            if race_bad <= 3:
-                small, sd2 = shrink_race(pool, orc, rounds, sd, bad[0][0])
-                ctx.run("race_schedule", [small, sd2], "race")        # its direct check re-runs it a few times
-        else:
-            _R["verdict"][_digest(rounds)] = ""
-            ctx.run("history_run", ["race", len(rounds), _digest(rounds)], "race")
     t_race = time.time() - t0
     shrinker = c15hist.Shrinker(pool, orc, rules)
     calls, res_fail, snap_fail, fill_fail, crashes = 0, [], [], [], []
@@ -1034,6 +1030,37 @@ def reflective(ctx):
     for shape, h, a in crashes[:3]:
         _R["verdict"][_digest(h)] = "worker failed on a %s history of %d operations: %s" % (shape, len(h), _short(a))
         ctx.run("history_run", [shape, len(h), _digest(h)], shape)
+    race_calls, race_bad, race_seq = 0, 0, 0
+    for (rounds, sd), a in zip(races, ranswers):
+        if "rres" not in a:
+            _R["verdict"][_digest(rounds)] = "schedule worker failed: %s" % _short(a)
+            ctx.run("history_run", ["race", len(rounds), _digest(rounds)], "race")
+            continue
+        race_calls += sum(len(r) for r in rounds)
+        bad = c15hist.round_mismatches(orc, rounds, a["rres"])
+        if bad:
+            # the threads, or the order?  The same operations one after the other in one interpreter (round by round,
+            # forwards and backwards): if they differ as well it is an ordinary failing history, shrunk as such
+            seq = [sp for r in rounds[:bad[0][0] + 1] for sp in r]
+            seqs = [seq, list(reversed(seq))]
+            sa = pool.run([{"ops": q} for q in seqs], thorough)
+            seq_bad = False
+            for q, x in zip(seqs, sa):
+                mm = c15hist.mismatches(orc, q, x["res"]) if "res" in x else []
+                if mm:
+                    seq_bad = True
+                    hist.append(("race-sequential", q))
+                    res_fail += [(len(hist) - 1, i) for i in mm]
+            if seq_bad:
+                race_seq += 1
+                continue
+            race_bad += 1
+            if race_bad <= 3:
+                small, sd2 = shrink_race(pool, orc, rounds, sd, bad[0][0])
+                ctx.run("race_schedule", [small, sd2], "race")        # its direct check re-runs it a few times
+        else:
+            _R["verdict"][_digest(rounds)] = ""
+            ctx.run("history_run", ["race", len(rounds), _digest(rounds)], "race")
     # (iii) failing histories: delta-debugged to a minimal one, confirmed in interpreters of their own
     deadline = t0 + ctx.n(150, 900)
     notes = []
@@ -1105,7 +1132,8 @@ def reflective(ctx):
                         "worker_failures": len(crashes)},
         "race_schedules": {"interpreters": len(races), "threads_per_round": 8, "resource_keys": nkeys,
                            "rounds": sum(len(r) for r, _ in races), "calls_compared": race_calls,
-                           "schedules_with_differences": race_bad, "switch_interval": 1e-6},
+                           "schedules_with_differences": race_bad,
+                           "schedules_that_differ_sequentially_too": race_seq, "switch_interval": 1e-6},
         "notes": notes, "pool": dict(pool.stats),
         "wall_s": {"fresh": round(t_fresh, 1), "histories": round(t_hist - t_fresh, 1),
                    "race_schedules": round(t_race - t_hist, 1), "total": round(time.time() - t0, 1)},
